@@ -394,7 +394,8 @@ def requestOfJson (j : Json) (now : Nat) : Request :=
     xsMeta := xsMeta, body := hexToBytes ((optStr j "body_hex").getD ""),
     bodyHash := (optStr hx "body_hash").getD "", casHash := optStr hx "cas_hash",
     importBody := importBody, newId := hexToNat ((optStr hx "new_id").getD "0"), now := now,
-    metaDecodable := metaDecodable (match xsMeta with | .value t false => some t | _ => none) }
+    metaDecodable := metaDecodable (match xsMeta with | .value t false => some t | _ => none),
+    bodyBroken := (match hx.getObjVal? "body_broken" with | .ok (.bool b) => b | _ => false) }
 
 open Xs.Http in
 partial def httpLoop (h : IO.FS.Stream) (s : Srv) (now : Nat) (i : Nat) : IO Unit := do
